@@ -7,7 +7,7 @@ fragment build/rt/overlay.json.  The patches add hooks only (nothing removed):
 import os, subprocess, sys, json
 root = os.environ.get('VERIF_ROOT') or os.path.dirname(os.path.dirname(os.path.abspath(__file__)))
 goroot = subprocess.check_output(['go', 'env', 'GOROOT'], text=True).strip()
-out = os.path.join(root, 'build', 'rt')
+out = os.path.join(os.environ.get('VERIF_BUILD') or os.path.join(root, 'build'), 'rt')
 os.makedirs(out, exist_ok=True)
 m = open(os.path.join(goroot, 'src/runtime/map.go')).read()
 needle = "\tr := uintptr(rand())\n"
